@@ -10,12 +10,13 @@ contract is: evaluate faithfully or raise).
   R2  visit_and_clauselist_op returns None at the first NULL:  NOT (NULL AND FALSE) must be TRUE
       (x = 5 AND id = 0 with x NULL; a literal false() would be folded away at construction time)
   R3  mod: Python % takes the sign of the divisor, SQL of the dividend
-  R3  NOT IN with a NULL element is NULL (never true) in SQL, True in Python
+  R3  NOT IN with a NULL element is NULL (never true) in SQL, True in Python; IN with a NULL element is
+      NULL (not FALSE) for a non-member, which shows under NOT (... OR ...)
   R3  startswith/endswith: '%' and '_' in the operand are LIKE wildcards in SQL, literals in Python
   R4  UPDATE applies SET values to objects whose criteria could not be decided (expired attribute)
   R4  a SET expression that reads an expired attribute stores the _ExpiredObject sentinel as the value
 """
-from sqlalchemy import Integer, String, and_, create_engine, not_, select, update
+from sqlalchemy import Integer, String, and_, create_engine, not_, or_, select, update
 from sqlalchemy.orm import DeclarativeBase, Mapped, Session, mapped_column
 
 
@@ -41,6 +42,7 @@ CASES = [
     ("C43-R3 mod of a negative number: n % 3 = 2, n = -1", dict(n=-1), lambda: A.n % 3 == 2),
     ("C43-R3 mod of a negative number: n % 3 = -1, n = -1", dict(n=-1), lambda: A.n % 3 == -1),
     ("C43-R3 x NOT IN (1, NULL), x = 2", dict(x=2), lambda: A.x.not_in([1, None])),
+    ("C43-R3 NOT (x IN (1, NULL) OR id = 0), x = 2", dict(x=2), lambda: not_(or_(A.x.in_([1, None]), A.id == 0))),
     ("C43-R3 startswith('a%c'), s = 'abbbc-tail'", dict(s="abbbc-tail"), lambda: A.s.startswith("a%c")),
     ("C43-R3 startswith('a_c'), s = 'abc'", dict(s="abc"), lambda: A.s.startswith("a_c")),
     ("C43-R3 endswith('a_c'), s = 'xabc'", dict(s="xabc"), lambda: A.s.endswith("a_c")),
